@@ -7,6 +7,7 @@ package c17
 import (
 	"encoding/json"
 	"fmt"
+	"github.com/Syuparn/pangaea/runscript"
 	"math"
 	"math/big"
 	"os"
@@ -104,7 +105,7 @@ func gen(thorough bool, emit func(tcase)) {
 		wide  []string
 	}
 	for _, b := range []base{
-		{[]string{"0x", "0X"}, "01fA_", 16, []string{"7fffffffffffffff", "8000000000000000", "ffffffffffffffff", "7FFF_FFFF_FFFF_FFFF", "10000000000000000"}},
+		{[]string{"0x", "0X"}, "0189abefABEF_", 16, []string{"7fffffffffffffff", "8000000000000000", "ffffffffffffffff", "7FFF_FFFF_FFFF_FFFF", "10000000000000000"}},
 		{[]string{"0o", "0O"}, "017_", 8, []string{"777777777777777777777", "1000000000000000000000", "1777777777777777777777"}},
 		{[]string{"0b", "0B"}, "01_", 2, []string{strings.Repeat("1", 63), "1" + strings.Repeat("0", 63), strings.Repeat("1", 64)}},
 	} {
@@ -127,7 +128,8 @@ func gen(thorough bool, emit func(tcase)) {
 		}
 	}
 	// C. exponent ints
-	for _, m := range []string{"0", "1", "5", "12", "100", "123", "1_0", "9", "92", "922337203685477580", "9223372036854775807"} {
+	// incl. mantissas of 16..18 digits that no float64 holds exactly
+	for _, m := range []string{"0", "1", "5", "12", "100", "123", "1_0", "9", "92", "922337203685477580", "9223372036854775807", "9007199254740993", "1234567890123457", "900719925474099301", "72057594037927937", "4611686018427387905"} {
 		for k := -3; k <= 20; k++ {
 			for _, e := range []string{"e", "E"} {
 				if e == "E" && k%5 != 0 {
@@ -425,6 +427,8 @@ func run(c *core.Ctx) {
 	distinctNames(c)
 	fcs := fileCases()
 	tk.Sharded(c, len(fcs), func(i int) { judgeFile(c, fcs[i]) })
+	rcs := replCases()
+	tk.Sharded(c, len(rcs), func(i int) { judgeREPL(c, rcs[i]) })
 	// spellings that may not lex get small batches (a syntax error is bisected down to the case)
 	tk.Batched(c, 8, "", func(emit func(tcase)) {
 		for _, t := range risky {
@@ -527,6 +531,40 @@ func fileCases() []fileCase {
 	return cs
 }
 
+// replCases: literals that span lines, entered in the REPL's multi-line mode (Class "repl/...", Bytes = the lines,
+// Want = the Repr the REPL must echo): a quoted or raw string has exactly its characters, blanks at line ends included.
+func replCases() []fileCase {
+	var cs []fileCase
+	for _, k := range []int{0, 1, 3, 64} {
+		b := strings.Repeat(" ", k)
+		raw := "a" + b + "\n" + b + " b  \n\tc" + b
+		cs = append(cs, fileCase{Class: fmt.Sprintf("repl/raw-string-spanning-lines/%d", k), Bytes: "s := `" + raw + "`\n[s.len, s == \"a" + b + "\\n" + b + " b  \\n\\tc" + b + "\"]\n", Want: fmt.Sprintf("[%d, true]", len(raw))})
+		cs = append(cs, fileCase{Class: fmt.Sprintf("repl/char-and-str-at-line-end/%d", k), Bytes: "xs := [\"x" + b + "\",\n  \"" + b + "y\",\n ?z]\nxs@len\n", Want: fmt.Sprintf("[%d, %d, 1]", 1+k, 1+k)})
+	}
+	return cs
+}
+
+func judgeREPL(c *core.Ctx, t fileCase) {
+	c.Eval(1)
+	c.Validated(1)
+	c.Nontrivial(1)
+	var out strings.Builder
+	func() {
+		defer func() {
+			if p := recover(); p != nil {
+				fmt.Fprintf(&out, "HOST PANIC: %v", p)
+			}
+		}()
+		runscript.StartREPL("", strings.NewReader("multi\n"+t.Bytes+"\n"), &out)
+	}()
+	ok := strings.Contains(out.String(), "\n"+t.Want+"\n")
+	c.Outcome("repl:" + map[bool]string{true: "ok", false: "differs"}[ok])
+	if !ok {
+		c.Violation(core.Violation{Key: strings.Join(strings.Split(t.Class, "/")[:2], "/") + "/wrong-value", Case: core.JSON(t), Desc: fmt.Sprintf("lines %q entered in the REPL's multi-line mode", t.Bytes), Expected: "echo " + t.Want,
+			Observed: fmt.Sprintf("%.300q", out.String())})
+	}
+}
+
 func judgeFile(c *core.Ctx, t fileCase) {
 	c.Eval(1)
 	c.Validated(1)
@@ -559,6 +597,10 @@ func replay(c *core.Ctx, raw json.RawMessage) {
 	var ft fileCase
 	if json.Unmarshal(raw, &ft) == nil && strings.HasPrefix(ft.Class, "file/") {
 		judgeFile(c, ft)
+		return
+	}
+	if strings.HasPrefix(ft.Class, "repl/") {
+		judgeREPL(c, ft)
 		return
 	}
 	var t tcase
